@@ -4,8 +4,10 @@
 -/
 import PowHsm.Basic.Json
 import PowHsm.Spec.C14
+import PowHsm.Ledger.Protocol
 namespace PowHsm
 namespace Ops
+open Ledger Comm Dongle
 
 def optBytesToJson : Option Bytes → Json
   | none => .null
@@ -21,9 +23,102 @@ def unsign (input implOut : Json) : Option (Json × Bool) := do
   let io ← optBytesOfJson? implOut
   pure (optBytesToJson (Btc.getUnsignedTx raw), Spec.c14 raw io)
 
+/-! ### the manager: one request line -/
+
+def tableOfJson (j : Option Json) : List (Bytes × Bytes) :=
+  match j with
+  | some (.obj kvs) => kvs.filterMap fun (k, v) => do
+      let a ← Bytes.ofHex? k
+      let b ← v.asBytes?
+      pure (a, b)
+  | _ => []
+
+def lookupTable (t : List (Bytes × Bytes)) (k : Bytes) : Bytes :=
+  match t.find? (fun p => p.1 == k) with
+  | some p => p.2
+  | none => List.replicate 32 0
+
+def hashesOfJson (input : Json) : Hashes :=
+  { keccak := lookupTable (tableOfJson (input.get? "keccak")),
+    cbHash := lookupTable (tableOfJson (input.get? "cbhash")) }
+
+def boolList (j : Option Json) : List Bool :=
+  match j with
+  | some (.arr xs) => xs.filterMap Json.asBool?
+  | _ => []
+
+def bytesList (j : Option Json) : List Bytes :=
+  match j with
+  | some (.arr xs) => xs.filterMap Json.asBytes?
+  | _ => []
+
+def pinOfJson : Option Json → Option PinSt
+  | some (.obj kvs) => do
+    let pin ← (← Json.lookup kvs "pin").asBytes?
+    let nc ← (← Json.lookup kvs "needs_change").asBool?
+    pure { pin := pin, needsChange := nc }
+  | _ => none
+
+def worldOfJson (input : Json) : Option World := do
+  let script ← scriptOfJson? (← input.get? "script")
+  let plat := match input.get? "platform" with
+    | some (.str "sgx") => Platform.sgx
+    | some (.str "tcp") => Platform.tcp
+    | _ => Platform.ledger
+  pure { script := script, conns := boolList (input.get? "conns"),
+         commIssue := (input.get? "comm_issue").bind Json.asBool? == some true,
+         platform := plat, pin := pinOfJson (input.get? "pin"),
+         genPins := bytesList (input.get? "gen_pins"), fsOk := boolList (input.get? "fs_ok") }
+
+def modeOfJson (input : Json) : Mode :=
+  match input.get? "mode" with
+  | some (.str "v1") => .v1
+  | _ => .v5
+
+def parsedOfJson (input : Json) : Option Parsed :=
+  match input.get? "parsed" with
+  | some (.str "notutf8") => some .notUtf8
+  | some (.str "notjson") => some .notJson
+  | some (.str "ok") => (input.get? "request").map Parsed.ok
+  | _ => none
+
+structure LineObs where
+  reply : Json
+  shutdown : Bool
+  events : List Ev
+  commIssue : Bool
+  exc : String
+
+def LineObs.toJson (o : LineObs) : Json :=
+  .obj [("reply", o.reply), ("shutdown", .bool o.shutdown), ("events", evsToJson o.events),
+        ("comm_issue", .bool o.commIssue), ("exc", .str o.exc)]
+
+def LineObs.ofJson? (j : Json) : Option LineObs := do
+  pure { reply := ← j.get? "reply", shutdown := ← (← j.get? "shutdown").asBool?,
+         events := ← evsOfJson? (← j.get? "events"),
+         commIssue := ← (← j.get? "comm_issue").asBool?,
+         exc := ← (← j.get? "exc").asStr? }
+
+def runLine (input : Json) : Option LineObs := do
+  let w ← worldOfJson input
+  let p ← parsedOfJson input
+  let r := handleLine (modeOfJson input) (hashesOfJson input) p w
+  match r.val with
+  | .ok lo => pure { reply := lo.reply, shutdown := lo.shutdown, events := r.evs,
+                     commIssue := r.w.commIssue,
+                     exc := match lo.exc with | some e => e.name | none => "" }
+  | .error _ => none     -- `handleLine` never raises
+
+/-- generic `line` op; `spec` is the property oracle evaluated on the implementation's output -/
+def line (spec : Json → LineObs → Bool) (input implOut : Json) : Option (Json × Bool) := do
+  let m ← runLine input
+  let io ← LineObs.ofJson? implOut
+  pure (m.toJson, spec input io)
+
 def run (op : String) (input implOut : Json) : Option (Json × Bool) :=
   match op with
   | "unsign" => unsign input implOut
+  | "line" => line (fun _ _ => true) input implOut
   | _ => none
 
 end Ops
